@@ -33,9 +33,10 @@ BY_PROPERTY = {
     "C17": [("disc", [e["name"] for e in disc.ENTRIES])],
     "C13": [("force", [e["name"] for e in force.ENTRIES])],
     "C06": [("geometry", ["bounding_box", "area", "area_overlap", "almost_eq", "find_location"])],
-    "C02": [("geometry", ["bounding_box", "x_cuttable", "y_cuttable", "split_horizontal", "split_vertical",
+    "C02": [("geometry", ["bounding_box", "x_cuttable", "y_cuttable", "x_cuttable.default_ratio", "y_cuttable.default_ratio", "split_horizontal", "split_vertical",
                           "duplicate"])],
-    "C12": [("geometry", ["bounding_box", "x_cuttable", "y_cuttable"])],
+    "C12": [("geometry", ["bounding_box", "x_cuttable", "y_cuttable", "x_cuttable.default_ratio",
+                          "y_cuttable.default_ratio"])],
     "C11": [("geometry", ["bounding_box", "area", "aspect_ratio", "split_horizontal", "split_vertical", "split",
                           "duplicate"])],
     "C03": [("geometry", ["bounding_box", "area", "area_overlap", "__mul__"])],
